@@ -200,3 +200,75 @@ func sortParts(s string) (string, []string) {
 	}
 	return fs[0].List[0].Atom, args
 }
+
+// ctorArgs returns the arguments of t if it is syntactically an application of constructor ctor: "(ctor a1 ... an)".
+// Used to simplify selector-of-constructor while building record updates, so that chains of updates stay linear in size.
+func ctorArgs(t, ctor string, n int) ([]string, bool) {
+	if !strings.HasPrefix(t, "("+ctor+" ") || !strings.HasSuffix(t, ")") {
+		return nil, false
+	}
+	body := t[len(ctor)+2 : len(t)-1]
+	var out []string
+	depth, start := 0, -1
+	inBar, inStr := false, false
+	for i := 0; i < len(body); i++ {
+		c := body[i]
+		switch {
+		case inBar:
+			if c == '|' {
+				inBar = false
+			}
+		case inStr:
+			if c == '"' {
+				inStr = false
+			}
+		case c == '|':
+			inBar = true
+			if start < 0 {
+				start = i
+			}
+		case c == '"':
+			inStr = true
+			if start < 0 {
+				start = i
+			}
+		case c == '(':
+			if start < 0 {
+				start = i
+			}
+			depth++
+		case c == ')':
+			depth--
+			if depth < 0 {
+				return nil, false
+			}
+		case c == ' ' || c == '\n' || c == '\t':
+			if depth == 0 && start >= 0 {
+				out = append(out, body[start:i])
+				start = -1
+			}
+		default:
+			if start < 0 {
+				start = i
+			}
+		}
+	}
+	if depth != 0 || inBar || inStr {
+		return nil, false
+	}
+	if start >= 0 {
+		out = append(out, body[start:])
+	}
+	if len(out) != n {
+		return nil, false
+	}
+	return out, true
+}
+
+// selOf builds (sel t), simplified when t is a constructor application.
+func selOf(si *StructInfo, i int, t string) string {
+	if args, ok := ctorArgs(t, si.Ctor, len(si.Fields)); ok {
+		return args[i]
+	}
+	return "(" + si.Fields[i].Sel + " " + t + ")"
+}
